@@ -137,3 +137,100 @@ def sum_tag_of(v):
     if not isinstance(v, SymNum):
         return None
     return ctx().sum_tags.get(v.t.get_id())
+
+
+# ------------------------------------------------------------------ partial sums as spec functions
+
+
+class PartialSum:
+    """Spec function  PS(idx, j) = sum_{t<j} term(idx, t)  (a finite sum defined by its recurrence).
+
+    Symbolically an uninterpreted function with the unfolding axioms PS(idx,0)=0 and
+    PS(idx,j+1)=PS(idx,j)+term(idx,j) kept as lazily instantiated universal facts; two sums are
+    compared only by the congruence rule (equal length, point-wise equal terms)."""
+
+    def __init__(self, name, idx_dims, n, term):
+        self.name, self.idx_dims, self.n, self.term = name, tuple(idx_dims), n, term
+        c = ctx()
+        self.concrete = c.concrete or not (any(is_sym(d) for d in self.idx_dims) or is_sym(n) or self._term_symbolic())
+        if self.concrete:
+            return
+        rank = len(self.idx_dims)
+        self.uf = z3.Function(c.fresh_name("PS_" + name), *([z3.IntSort()] * (rank + 1) + [z3.RealSort()]))
+        from . import spec as S
+        from .core import implies
+
+        uf = self.uf
+
+        from .arr import _storage_ids
+
+        leaf_id = next(_storage_ids)
+
+        def ps(*a):
+            ctx().leaf_touch(leaf_id, tuple(a))
+            return SymNum(uf(*[_z(i) for i in a]), "real")
+
+        self._ps = ps
+        S.assume(S.Forall(self.idx_dims, lambda *idx: ps(*idx, 0) == 0, name="sum.base") if rank else (ps(0) == 0))
+        dims = self.idx_dims + (n,)
+        S.assume(S.Forall(dims, lambda *a: ps(*a[:-1], a[-1] + 1) == ps(*a) + term(*a), name="sum.step"))
+        c.used_axioms.add("finite sums: PS(.,0)=0, PS(.,j+1)=PS(.,j)+term(.,j) (definition by recurrence); compared by congruence (equal length, point-wise equal terms)")
+
+    def _term_symbolic(self):
+        try:
+            v = self.term(*([0] * (len(self.idx_dims) + 1)))
+            return is_sym(v)
+        except Exception:
+            return True
+
+    def at(self, *a):
+        """partial sum of the first a[-1] terms at index a[:-1]"""
+        if self.concrete:
+            idx, j = a[:-1], int(a[-1])
+            tot = 0.0
+            for t in range(j):
+                tot = tot + self.term(*idx, t)
+            return tot
+        v = self._ps(*a)
+        ctx().sum_tags[v.t.get_id()] = (self, tuple(a[:-1]), a[-1])
+        return v
+
+    def total(self, *idx):
+        return self.at(*idx, self.n)
+
+
+def _z(i):
+    from .core import to_z3
+
+    return to_z3(i)
+
+
+class Undecided:
+    """A clause the verifier cannot decide (reported as undecided, never as a violation)."""
+
+
+def sum_is(value, ps, idx, scale=1.0):
+    """value == ps.total(idx), by the congruence rule when `value` is itself a tagged finite sum."""
+    from . import spec as S
+    from .core import and_
+
+    if not is_sym(value):
+        return S.close(value, ps.total(*idx) if ps.concrete else ps.total(*idx), scale)
+    t = z3.simplify(value.t)
+    if z3.is_app_of(t, z3.Z3_OP_ITE):
+        from .core import SymBool
+
+        cnd, x, y = t.children()
+        return S.All(
+            S.Imp(SymBool(cnd), sum_is(SymNum(x, "real"), ps, idx, scale)),
+            S.Imp(SymBool(z3.Not(cnd)), sum_is(SymNum(y, "real"), ps, idx, scale)),
+        )
+    tag = ctx().sum_tags.get(value.t.get_id())
+    if tag is None:
+        tag = ctx().sum_tags.get(z3.simplify(value.t).get_id())
+    if tag is None:
+        return value == ps.total(*idx)
+    other, oidx, oj = tag
+    if other is ps:
+        return and_(oj == ps.n, *[a == b for a, b in zip(oidx, idx)])
+    return S.All(oj == ps.n, S.Forall((ps.n,), lambda t: other.term(*oidx, t) == ps.term(*idx, t)))
